@@ -438,7 +438,13 @@ func (c *otApplyContext) matchPropertiesMark(glyph GID, glyphProps uint16, match
 	/* If using mark filtering sets, the high uint16 of
 	 * matchProps has the set index. */
 	if uint16(matchProps)&font.UseMarkFilteringSet != 0 {
-		_, has := c.gdef.MarkGlyphSetsDef.Coverages[matchProps>>16].Index(gID(glyph))
+		sets := c.gdef.MarkGlyphSetsDef.Coverages
+		setIndex := int(matchProps >> 16)
+		// a missing set does not cover any glyph
+		if setIndex >= len(sets) || sets[setIndex] == nil {
+			return false
+		}
+		_, has := sets[setIndex].Index(gID(glyph))
 		return has
 	}
 
